@@ -6,6 +6,7 @@
    specification for EVERY document and option set, refusals and their reasons included. *)
 From Coq Require Import List ZArith Lia Bool Arith String.
 Require Import Json CdeThms CdeSpec CdeRefine CdeConsistent.
+Require CdeInvariance.
 Import ListNotations.
 Open Scope nat_scope.
 
@@ -52,6 +53,41 @@ Theorem C12_refuse_version : forall data tr ic ia a b, get "kind" data = Some (J
   get "EVENT_SCHEMA_VERSION" data = Some (JArr [JInt a; JInt b]) -> (a < 7 \/ 19 < a)%Z -> exists code, read_full data tr ic ia = RErr code.
 Proof. exact refuse_version. Qed.
 
+(* which track: with --track t the problem is the one of track t (of the part that has it); a track id that no part has is refused; without
+   --track the export is accepted only if the event has exactly one track overall (refusals: no track, several tracks) *)
+Theorem C12_track_selected : forall data t ign_c ign_a ff of ps cs amb,
+  read_fields data (Some t) ign_c ign_a ff of = ROk (ps, cs, amb) -> ra_track amb = t.
+Proof.
+  intros data t ign_c ign_a ff of ps cs amb H. rewrite read_fields_refines_spec in H.
+  destruct (CdeInvariance.spec_read_track_ok _ _ _ _ _ _ _ _ _ H) as (parts & p & td & _ & Hf & _). apply (find_track_some_id parts t p _ td Hf).
+Qed.
+Theorem C12_refuse_unknown_track : forall data t ign_c ign_a ff of parts, CdeInvariance.event_parts data = Some parts ->
+  (forall pid part tracks tid tr, In (pid, part) (obj_items parts) -> (match get "tracks" part with Some v => as_object v | None => None end) = Some tracks ->
+                                  In (tid, tr) (obj_items tracks) -> parse_u64 tid <> Some t) ->
+  exists code, read_fields data (Some t) ign_c ign_a ff of = RErr code.
+Proof.
+  intros data t ign_c ign_a ff of parts Hp Hno. rewrite read_fields_refines_spec. destruct (find_track_unknown parts t Hno) as (e & He).
+  apply (CdeInvariance.spec_read_track_err data (Some t) ign_c ign_a ff of parts e Hp He).
+Qed.
+Theorem C12_refuse_no_or_several_tracks : forall data ign_c ign_a ff of parts all, CdeInvariance.event_parts data = Some parts ->
+  tracks_of parts = ROk all -> List.length all <> 1 -> exists code, read_fields data None ign_c ign_a ff of = RErr code.
+Proof.
+  intros data ign_c ign_a ff of parts all Hp Ht Hl. rewrite read_fields_refines_spec. pose proof (find_track_none parts) as Hn. rewrite Ht in Hn.
+  destruct all as [|[[pid tid] tr] [|y l]]; [| exfalso; apply Hl; reflexivity |];
+    apply (CdeInvariance.spec_read_track_err data None ign_c ign_a ff of parts _ Hp Hn).
+Qed.
+Theorem C12_single_track_selected : forall data ign_c ign_a ff of ps cs amb,
+  read_fields data None ign_c ign_a ff of = ROk (ps, cs, amb) ->
+  exists parts pid tid tr, CdeInvariance.event_parts data = Some parts /\ tracks_of parts = ROk [(pid, tid, tr)] /\ parse_u64 tid = Some (ra_track amb).
+Proof.
+  intros data ign_c ign_a ff of ps cs amb H. rewrite read_fields_refines_spec in H.
+  destruct (CdeInvariance.spec_read_track_ok _ _ _ _ _ _ _ _ _ H) as (parts & p & td & Hp & Hf & _). exists parts.
+  pose proof (find_track_none parts) as Hn. destruct (tracks_of parts) as [[|[[pid tid] tr] [|y l]]|e]; rewrite Hn in Hf; try discriminate.
+  exists pid, tid, tr. split; [exact Hp|]. split; [reflexivity|].
+  destruct (parse_u64 pid); cbn in Hf; [|discriminate]. destruct (parse_u64 tid) as [tz|]; cbn in Hf; [|discriminate].
+  destruct (as_object tr); cbn in Hf; [|discriminate]. inversion Hf. reflexivity.
+Qed.
+
 (* the problem built from an export is consistent by construction: every choice names a course of the problem, every instructor index a
    participant of the problem, 0 <= min <= max after the adaptation for ignored attendees, nobody is instructor twice -- so
    check_data_consistency never refuses what the CdE reader returns (C15) and the index clauses of validity hold (C10) *)
@@ -65,6 +101,7 @@ Proof. intros data track ign_c ign_a ff of ps cs amb H. rewrite read_fields_refi
 
 Check C12_consistent. Check C12_refinement. Check C12_participants. Check C12_participants_order. Check C12_kept. Check C12_penalty_position. Check C12_courses. Check C12_instructors.
 Check C12_limits. Check C12_refuse_kind. Check C12_refuse_version.
+Check C12_track_selected. Check C12_refuse_unknown_track. Check C12_refuse_no_or_several_tracks. Check C12_single_track_selected.
 Print Assumptions C12_refinement.
 Print Assumptions C12_consistent.
 Print Assumptions C12_participants.
@@ -75,3 +112,7 @@ Print Assumptions C12_instructors.
 Print Assumptions C12_limits.
 Print Assumptions C12_refuse_kind.
 Print Assumptions C12_refuse_version.
+Print Assumptions C12_track_selected.
+Print Assumptions C12_refuse_unknown_track.
+Print Assumptions C12_refuse_no_or_several_tracks.
+Print Assumptions C12_single_track_selected.
